@@ -416,6 +416,8 @@ func (e *SpecEnv) evalCall(x *ast.CallExpr) Val {
 		return e.quantSort(x, "Data", func(v string) Val { return Val{K: KRef, T: v, Sort: "Data"} })
 	case "forallF":
 		return e.quantSort(x, "Fn", func(v string) Val { return Val{K: KRef, T: v, Sort: "Fn"} })
+	case "forallRA":
+		return e.quantSort(x, "(Array Int Range)", func(v string) Val { return Val{K: KRef, T: v, Sort: "(Array Int Range)"} })
 	case "leafv":
 		// leafv(d, J, k): the float64 leaf reached from d by following J[k], J[k+1], ...
 		e.run.needData()
